@@ -19,6 +19,7 @@ use crate::exec::guarded;
 use crate::gen::*;
 use crate::rsim::*;
 use crate::tape::Tape;
+use crate::chain::SimUtxo;
 use crate::world::{FaultCfg, World};
 
 pub fn world(_tier: Tier, world_no: u64, mut tape: Tape) -> WorldReport {
@@ -55,6 +56,9 @@ struct HistItem {
     args: ArgMap,
     max_rounds: usize,
     ending: Ending,
+    /// simulated real time at which this request arrives (the instance may have served the
+    /// previous one a second or a year earlier)
+    start_ns: u64,
 }
 
 fn uses_min_utxo(tx: &tir::Tx) -> bool {
@@ -85,6 +89,7 @@ fn run_item(chain: &SimChain, comp: &mut SimCompiler, item: &HistItem, log: &mut
             args: item.args.clone(),
             max_rounds: item.max_rounds,
             ending: Ending::Natural,
+            start_ns: item.start_ns,
         };
         let mut l2 = vec![];
         let (o, polls, calls, _) = run_item(chain, &mut scratch, &natural, &mut l2);
@@ -105,6 +110,7 @@ fn run_item(chain: &SimChain, comp: &mut SimCompiler, item: &HistItem, log: &mut
     }
     let mut w = World::new(Tape::replay(vec![]));
     w.chain = chain.clone();
+    w.clock_base_ns = item.start_ns;
     let mut cancel = None;
     comp.fail_compile_at = None;
     comp.fail_op_at = None;
@@ -239,10 +245,10 @@ fn inner(t: &mut Tape, rep: &mut WorldReport) {
     gen_ledger(t, &mut w0, &program, &lcfg);
     let chain = w0.chain.clone();
 
-    let mk_item = |t: &mut Tape, natural: bool| -> HistItem {
+    let mk_item = |t: &mut Tape, natural: bool, chain: &SimChain| -> HistItem {
         let spec = &program.txs[t.index(program.txs.len())];
         let dist = if t.chance(1, 5) { ArgDist::Boundary } else { ArgDist::Small };
-        let plan = gen_args(t, &program, spec, &chain, dist);
+        let plan = gen_args(t, &program, spec, chain, dist);
         let ending = if natural {
             Ending::Natural
         } else {
@@ -261,11 +267,50 @@ fn inner(t: &mut Tape, rep: &mut WorldReport) {
             args: plan.args,
             max_rounds: *t.pick(&[3usize, 0, 6]),
             ending,
+            start_ns: 0,
         }
     };
     let hlen = t.weighted(&[1, 4, 3, 2, 1]);
-    let mut history: Vec<HistItem> = (0..hlen).map(|_| mk_item(t, false)).collect();
-    let target = mk_item(t, true);
+    let mut history: Vec<HistItem> = (0..hlen).map(|_| mk_item(t, false, &chain)).collect();
+    // In a third of the worlds the transactions the history produced are *submitted*: the target is
+    // then resolved against the ledger as they left it (in both arms), and its reference arguments
+    // may name their outputs - a server resolves B after A was sent, and B spends or reads what A made.
+    // The instance under test runs the history first (all but its last element, whose ending varies).
+    let submit_history = hlen > 1 && t.chance(1, 3);
+    let mut chain = chain;
+    let mut pre_comp = SimCompiler::new(make_compiler(&pp));
+    pre_comp.record = false;
+    let mut pre_log: Vec<String> = vec![];
+    let mut pre_ran = 0usize;
+    if submit_history {
+        for item in history.iter().take(hlen - 1) {
+            let (o, _, _, _) = run_item(&chain, &mut pre_comp, item, &mut pre_log);
+            pre_ran += 1;
+            if let Outcome::Ok(c) = &o {
+                if let Ok(d) = crate::txread::decode_tx(&c.payload) {
+                    if d.inputs.iter().all(|i| chain.utxos.contains_key(i)) {
+                        for i in &d.inputs {
+                            chain.spend(i);
+                        }
+                        for (ix, o) in d.outputs.iter().enumerate() {
+                            chain.utxos.insert(
+                                (c.hash.clone(), ix as u32),
+                                SimUtxo {
+                                    address: o.address.clone(),
+                                    value: crate::txread::value_of_output(o),
+                                    datum: None,
+                                    script: None,
+                                },
+                            );
+                        }
+                        rep.fire("history-tx-submitted");
+                    }
+                }
+            }
+        }
+    }
+    let chain = chain;
+    let target = mk_item(t, true, &chain);
     // a *sibling request* as the last thing the instance saw before the target: the same
     // template and arguments, except that every Bytes argument has other content of the same
     // length (another witness script, another metadata blob) - or the very same request. Whatever
@@ -294,10 +339,20 @@ fn inner(t: &mut Tape, rep: &mut WorldReport) {
                 1 => Ending::ErrAtCall(1 + t.draw(12)),
                 _ => Ending::CancelAfter(1 + t.draw(16) as u32),
             },
+            start_ns: 0,
         });
         hlen += 1;
         rep.fire("sibling-request-before-target");
     }
+    // requests arrive at different times: a second, an hour, a day or more than a year apart (the
+    // clock seam shows this to anything in the instance that looks at a clock); both arms run the
+    // target at the same time
+    let gap_ns: u64 = *t.pick(&[0u64, 1_000_000_000, 3_600_000_000_000, 86_400_000_000_000, 400 * 86_400_000_000_000]);
+    for (i, h) in history.iter_mut().enumerate() {
+        h.start_ns = i as u64 * gap_ns;
+    }
+    let mut target = target;
+    target.start_ns = (history.len() as u64 + 1) * gap_ns;
     let sweep = hlen > 0 && t.chance(1, 4);
     let target_min_utxo = uses_min_utxo(&target.tx);
 
@@ -313,10 +368,11 @@ fn inner(t: &mut Tape, rep: &mut WorldReport) {
     log.push(format!("fresh arm: {}", describe(&fresh)));
 
     // ---- history arm(s)
-    let mut comp = SimCompiler::new(make_compiler(&pp));
+    let mut comp = if submit_history { pre_comp } else { SimCompiler::new(make_compiler(&pp)) };
     comp.record = false;
+    log.extend(pre_log);
     let last = history.pop();
-    for item in &history {
+    for item in history.iter().skip(pre_ran) {
         run_item(&chain, &mut comp, item, &mut log);
     }
     let body_before_last = comp.inner.latest_tx_body.clone();
@@ -335,10 +391,13 @@ fn inner(t: &mut Tape, rep: &mut WorldReport) {
                 name: last.name.clone(),
                 args: last.args.clone(),
                 max_rounds: last.max_rounds,
+                start_ns: last.start_ns,
             };
             let mut scratch = vec![];
             let (_, polls, calls, rounds) = run_item(&chain, &mut probe_comp, &probe, &mut scratch);
             variants.clear();
+            // the tape-chosen ending first: it runs on the very instance that served the history
+            variants.push(last.ending.clone());
             variants.push(Ending::Natural);
             for k in 1..=calls.min(40) {
                 variants.push(Ending::ErrAtCall(k));
@@ -359,10 +418,20 @@ fn inner(t: &mut Tape, rep: &mut WorldReport) {
         variants.push(Ending::Natural); // empty history
     }
     let mut sig = crate::tape::Digest::default();
-    for ending in &variants {
-        let mut c = SimCompiler::new(make_compiler(&pp));
+    // the first variant runs on the instance that really served the history (whatever it keeps, in
+    // whatever field); the further crash points of a sweep run on fresh instances that start from the
+    // body the history left (the instance cannot be cloned)
+    let mut real = Some(comp);
+    for (vi, ending) in variants.iter().enumerate() {
+        let mut c = match (vi, real.take()) {
+            (0, Some(r)) => r,
+            _ => {
+                let mut c = SimCompiler::new(make_compiler(&pp));
+                c.inner.latest_tx_body = body_before_last.clone();
+                c
+            }
+        };
         c.record = false;
-        c.inner.latest_tx_body = body_before_last.clone();
         let mut vlog = vec![];
         if let Some(last) = &last {
             let item = HistItem {
@@ -371,6 +440,7 @@ fn inner(t: &mut Tape, rep: &mut WorldReport) {
                 name: last.name.clone(),
                 args: last.args.clone(),
                 max_rounds: last.max_rounds,
+                start_ns: last.start_ns,
             };
             let (o, _, _, _) = run_item(&chain, &mut c, &item, &mut vlog);
             match (&o, ending) {
